@@ -25,4 +25,4 @@ ASSUMPTIONS = ["truncation is a prefix of the written file (interrupted write or
                "QM LINB only: LinearSection.loads_data / add_linear_from_array accept a short but item-aligned payload and the failure "
                "surfaces at the next section read; the model fails at once - same bucket for every truncated file (all other raw "
                "loaders raise at the same point as the model since 89f7dc3)"]
-PARTIAL = ['bqm_body_prefix_safe_partial: body only', 'decode_prefix_safe_bqm_partial: whole BQM file v1/v2, JSON text layers as hypotheses (HdrOK / LabelsOK)', 'decode_prefix_safe for QM / expression files: NOT proved as a whole (section_prefix_safe + sequence_prefix_safe are the ingredients); QM is covered by the every-prefix correspondence', 'decode_reads_in_bounds is not a theorem: the model reads through take/firstn only; the implementation violates it (finding oob_vtyp_truncated)']
+PARTIAL = ["file-level decode_ok_only_if_padding_lost is proved for BQM files (exact threshold); for QM and expression files it is proved per section (section_ok_only_if_padding_lost) and the whole-file theorems give 'error or same content' without the exact threshold", 'decode_reads_in_bounds is not a theorem: the model reads through take/firstn only; on the implementation it is checked by the valgrind corpus cases', 'zip / npz containers and DQM files are not modelled']
